@@ -362,7 +362,15 @@ pub fn run_tree(cfg: &TreeCfg, sched: &[Feed], env: &Env, end: bool) -> TreeOut 
             }
         };
         let stack: Vec<String> = d.open_elems.iter().map(name).collect();
-        let afe: Vec<String> = d.active_formatting.iter().map(|e| e.as_ref().map(|(h, _)| name(h)).unwrap_or_else(|| "|".into())).collect();
+        let afe: Vec<String> = d
+            .active_formatting
+            .iter()
+            .zip(d.active_formatting_attrs.iter())
+            .map(|(e, a)| match (e, a) {
+                (Some((h, _)), Some(attrs)) => format!("{}{:?}", name(h), attrs),
+                _ => "|".into(),
+            })
+            .collect();
         let pending: String = d.pending_table_text.iter().map(|(_, t)| t.as_str()).collect();
         format!(
             "mode={} orig={:?} tmpl={:?} stack={:?} afe={:?} fok={} head={} form={} pending={:?} skiplf={}",
